@@ -146,6 +146,9 @@ type SpecOpts struct {
 	// ArrayVar: a message branch whose pattern has an array with a
 	// variable in front of a constant (single candidate per message).
 	ArrayVar bool
+	// PropsWrite: ECMAScript actions and guards may write into the step
+	// properties they are shown.
+	PropsWrite bool
 	// Ext: an action keeps the result of the extended interpreter's
 	// _.match helper in the bindings and a branch looks inside it.
 	Ext bool
@@ -294,7 +297,7 @@ func GenSpec(t *rapid.T, o SpecOpts) *ASpec {
 		n := &ANode{}
 		hasAction := rapid.IntRange(0, 2).Draw(t, l+".act") > 0
 		if hasAction {
-			n.Action = GenProg(t, ProgOpts{Emit: o.Emit, Fail: o.Fail, Spin: o.Spin}, l+".a")
+			n.Action = GenProg(t, ProgOpts{Emit: o.Emit, Fail: o.Fail, Spin: o.Spin, Props: o.PropsWrite}, l+".a")
 			if o.NativeToo && rapid.IntRange(0, 2).Draw(t, l+".nat") == 0 {
 				n.ActionNative = true
 				if o.InPlace && rapid.Bool().Draw(t, l+".inplace") {
@@ -342,7 +345,7 @@ func GenSpec(t *rapid.T, o SpecOpts) *ASpec {
 					}
 				}
 				if rapid.IntRange(0, 2).Draw(t, bl+".hg") == 0 {
-					b.Guard = GenProg(t, ProgOpts{Guard: true, Emit: o.Emit, Fail: o.GuardFail, MaxOps: 3}, bl+".g")
+					b.Guard = GenProg(t, ProgOpts{Guard: true, Emit: o.Emit, Fail: o.GuardFail, MaxOps: 3, Props: o.PropsWrite}, bl+".g")
 					if o.NativeToo && rapid.IntRange(0, 2).Draw(t, bl+".gn") == 0 {
 						b.GuardNative = true
 						b.GuardScribbles = o.Scribble && rapid.Bool().Draw(t, bl+".gs")
@@ -496,7 +499,7 @@ func GenLivelySpec(t *rapid.T, o SpecOpts) *ASpec {
 			bl := fmt.Sprintf("%s.b%d", l, i)
 			b := ABranch{HasPattern: true, Pattern: GenPattern(t, o.Deterministic, bl), Target: target(bl)}
 			if rapid.IntRange(0, 3).Draw(t, bl+".hg") == 0 {
-				b.Guard = GenProg(t, ProgOpts{Guard: true, Emit: o.Emit, Fail: o.GuardFail, MaxOps: 2}, bl+".g")
+				b.Guard = GenProg(t, ProgOpts{Guard: true, Emit: o.Emit, Fail: o.GuardFail, MaxOps: 2, Props: o.PropsWrite}, bl+".g")
 				b.GuardNative = o.NativeToo && rapid.IntRange(0, 2).Draw(t, bl+".gn") == 0
 				b.GuardScribbles = b.GuardNative && o.Scribble && rapid.Bool().Draw(t, bl+".gs")
 				if b.GuardScribbles && rapid.Bool().Draw(t, bl+".gnp") {
@@ -516,7 +519,7 @@ func GenLivelySpec(t *rapid.T, o SpecOpts) *ASpec {
 	for _, name := range anodes {
 		l := "a." + name
 		n := &ANode{BranchType: "bindings"}
-		n.Action = GenProg(t, ProgOpts{Emit: o.Emit, Fail: o.Fail, Spin: o.Spin}, l+".a")
+		n.Action = GenProg(t, ProgOpts{Emit: o.Emit, Fail: o.Fail, Spin: o.Spin, Props: o.PropsWrite}, l+".a")
 		if o.NativeToo && rapid.IntRange(0, 2).Draw(t, l+".nat") == 0 {
 			n.ActionNative = true
 			n.InPlace = o.InPlace && rapid.Bool().Draw(t, l+".inplace")
@@ -525,7 +528,7 @@ func GenLivelySpec(t *rapid.T, o SpecOpts) *ASpec {
 			bl := fmt.Sprintf("%s.b%d", l, i)
 			b := ABranch{HasPattern: true, Pattern: genBindingsPattern(t, bl), Target: target(bl)}
 			if rapid.IntRange(0, 3).Draw(t, bl+".hg") == 0 {
-				b.Guard = GenProg(t, ProgOpts{Guard: true, Emit: o.Emit, Fail: o.GuardFail, MaxOps: 2}, bl+".g")
+				b.Guard = GenProg(t, ProgOpts{Guard: true, Emit: o.Emit, Fail: o.GuardFail, MaxOps: 2, Props: o.PropsWrite}, bl+".g")
 			}
 			n.Branches = append(n.Branches, b)
 		}
@@ -576,6 +579,18 @@ func GenLivelySpec(t *rapid.T, o SpecOpts) *ASpec {
 		an.Action.Ops = append([]Op{{Op: "set", K: "?p", V: val}}, an.Action.Ops...)
 		mn := a.Nodes[rapid.SampledFrom(mnodes).Draw(t, "bindvar.m")]
 		mn.Branches = append([]ABranch{{HasPattern: true, Pattern: map[string]interface{}{"c": "?p"}, Target: rapid.SampledFrom(all).Draw(t, "bindvar.to")}}, mn.Branches...)
+	}
+	if o.Derive && rapid.IntRange(0, 3).Draw(t, "bigtarget") == 0 {
+		// an action computes a large whole number that later names the
+		// target of a branch ("@t"); a node of that name exists.  (Whole
+		// numbers leave the interpreter as integers and come back from
+		// JSON as floats: whatever turns them into text must not care.)
+		an := a.Nodes[rapid.SampledFrom(anodes).Draw(t, "bigtarget.a")]
+		an.Action.Ops = append(append([]Op{}, an.Action.Ops...), Op{Op: "set", K: "t", V: 1234567.0})
+		mn := a.Nodes[rapid.SampledFrom(mnodes).Draw(t, "bigtarget.m")]
+		mn.Branches = append([]ABranch{{HasPattern: true, Pattern: map[string]interface{}{"go": "?g"}, Target: "@t"}}, mn.Branches...)
+		a.Nodes["1234567"] = &ANode{BranchType: "message", Branches: []ABranch{{HasPattern: true, Pattern: map[string]interface{}{}, Target: rapid.SampledFrom(mnodes).Draw(t, "bigtarget.back")}}}
+		a.HintMsgs = append(a.HintMsgs, map[string]interface{}{"go": 1.0})
 	}
 	if o.Ext && rapid.Bool().Draw(t, "ext") {
 		an := a.Nodes[rapid.SampledFrom(anodes).Draw(t, "ext.a")]
